@@ -202,6 +202,12 @@ class PathEnum:
                 r = self.idx.lookup(mod, e.args[1].id)
                 if r and r[0] == 'class':
                     return r[1] in self.idx.mro(cls)
+        if isinstance(e, ast.Compare) and len(e.ops) == 1 and isinstance(e.ops[0], (ast.Lt, ast.LtE, ast.Gt, ast.GtE)):
+            a, b = self.const_of(e.left, p, fr), self.const_of(e.comparators[0], p, fr)
+            if all(isinstance(x, (int, float)) and not isinstance(x, bool) for x in (a, b)):
+                import operator
+                return {ast.Lt: operator.lt, ast.LtE: operator.le, ast.Gt: operator.gt, ast.GtE: operator.ge}[type(e.ops[0])](a, b)
+            return _UNKNOWN
         if isinstance(e, ast.Compare) and len(e.ops) == 1 and isinstance(e.ops[0], (ast.Is, ast.IsNot, ast.Eq, ast.NotEq)):
             a, b = self.const_of(e.left, p, fr), self.const_of(e.comparators[0], p, fr)
             if a is not _UNKNOWN and b is not _UNKNOWN:
